@@ -130,7 +130,7 @@ func TestC05(t *testing.T) {
 		longLivedHandle(t, r, tmp)
 		clientCacheModes(t, r, tmp)
 	}
-	r.Require("files_scanned", "scans_after_operation", "kek_checks", "kek_checks_after_reopen", "bit_flips", "truncations", "splices", "foreign_key_opens", "tampered_opens_rejected", "crash_point_scans", "temporaries_scanned", "mode_checks", "kek_checks_after_failed_write", "kek_checks_long_lived_handle", "client_cache_mode_checks", "creating_open_calls_observed", "cache_crash_point_scans", "backup_uploads_scanned", "audit_dir_mode_checks", "external_stat_changes", "refused_writes_scanned", "forged_key_material_opens", "audit_log_rotations_while_running")
+	r.Require("state_directory_listings_during_an_upload", "files_scanned", "scans_after_operation", "kek_checks", "kek_checks_after_reopen", "bit_flips", "truncations", "splices", "foreign_key_opens", "tampered_opens_rejected", "crash_point_scans", "temporaries_scanned", "mode_checks", "kek_checks_after_failed_write", "kek_checks_long_lived_handle", "client_cache_mode_checks", "creating_open_calls_observed", "cache_crash_point_scans", "backup_uploads_scanned", "audit_dir_mode_checks", "external_stat_changes", "refused_writes_scanned", "forged_key_material_opens", "audit_log_rotations_while_running")
 	r.Rule("histories of 15-25 operations with marker names and values on a state directory holding the database and a real audit log, every file scanned after every operation, KEK call counter read after every operation (also after a reopen); tamper loop on saved files: every single-bit flip, every truncation length, version-field edits, DEK/DB splices between databases under the same and under a different KEK, foreign KEKs; crash points of a save scanned for plaintext in temporaries. Distinct = (operation kind, file kind) for scans and (tamper kind, outcome)")
 }
 
@@ -586,6 +586,7 @@ func cacheCreation(t *testing.T, r *evid.Run, tmp string) {
 type memS3 struct {
 	mu     sync.Mutex
 	bodies [][]byte
+	during func() // called while an upload is in flight
 }
 
 func (e *memS3) RoundTrip(req *http.Request) (*http.Response, error) {
@@ -597,6 +598,9 @@ func (e *memS3) RoundTrip(req *http.Request) (*http.Response, error) {
 	e.mu.Lock()
 	e.bodies = append(e.bodies, body)
 	e.mu.Unlock()
+	if e.during != nil {
+		e.during()
+	}
 	h := http.Header{"Content-Type": {"application/xml"}, "X-Amz-Request-Id": {"verif"}, "ETag": {`"d41d8cd98f00b204e9800998ecf8427e"`}}
 	return &http.Response{StatusCode: 200, Status: "200", Header: h, Body: io.NopCloser(strings.NewReader("")), Request: req, Proto: "HTTP/1.1", ProtoMajor: 1, ProtoMinor: 1}, nil
 }
@@ -625,6 +629,26 @@ func runningServerBackups(t *testing.T, r *evid.Run, tmp string) {
 		}
 		after := kek.calls()
 		ep := &memS3{}
+		// while an upload is in flight: whatever stands beside the database file then (a spool copy, a
+		// temporary) is the server's file too - owner-only like the rest, under the usual umask
+		oldMask := syscall.Umask(0o022)
+		defer syscall.Umask(oldMask)
+		var lax atomic.Pointer[string]
+		ep.during = func() {
+			ents, _ := os.ReadDir(dir)
+			r.Count("state_directory_listings_during_an_upload", 1)
+			for _, e := range ents {
+				if in, err := e.Info(); err == nil && in.Mode().Perm()&0o077 != 0 {
+					m := fmt.Sprintf("%s has mode %v", e.Name(), in.Mode())
+					lax.CompareAndSwap(nil, &m)
+				}
+			}
+		}
+		defer func() {
+			if m := lax.Load(); m != nil {
+				r.Violation("file-mode-not-owner-only", -1, "while a backup upload was in flight the state directory held a file others can read: "+*m, nil)
+			}
+		}()
 		cfg := aws.Config{Region: "us-east-1", Credentials: credentials.NewStaticCredentialsProvider("AKIDVERIF", "SECRETVERIF", ""), HTTPClient: &http.Client{Transport: ep}}
 		client := s3.NewFromConfig(cfg, func(o *s3.Options) {
 			o.BaseEndpoint = aws.String("http://s3.verif.invalid")
